@@ -17,7 +17,9 @@ run's unique prefix), and finally kills the whole session and unlinks what was l
 The fault is performed by the task body itself at a chosen point (before / during / after the
 publication of its outputs): raise, sys.exit(n), SIGKILL to itself, or a signal to the data server /
 shm server of its own or of the other host (pids are published by the harness-side executor launcher
-in a pid file; no hook in /repo is needed).
+in a pid file; no hook in /repo is needed), or — fault `garbage-shm` — one UDP datagram the shm server cannot
+decode, sent to the shm port of its own / the other host (the server's request loop raises: the process ends
+through `entrypoint`'s exception path, not through a signal).
 """
 from __future__ import annotations
 
@@ -30,7 +32,9 @@ import sys
 import time
 
 EXPECTED = {"src|0": 10, "src|1": 20, "a|o": 11, "b|o": 40, "sink|o": 51}
-FAULTS = ["none", "raise", "exit", "kill9", "kill-data", "kill-shm", "term-shm", "kill-shm-midreq"]
+FAULTS = ["none", "raise", "exit", "kill9", "kill-data", "kill-shm", "term-shm", "kill-shm-midreq", "garbage-shm", "kill-shm-midshutdown"]
+# datagrams `cascade.shm.api.deser` cannot decode (unknown tag byte / empty datagram / non-ascii key): hex
+SHM_GARBAGE = {"unknown-tag": "ff2067617262616765", "empty": "", "non-ascii-key": "0100000002fffe"}
 WHENS = ["before", "during", "after"]
 
 
@@ -45,9 +49,15 @@ def make_job(case):
     code = int(case.get("code", 3))
     victim = case.get("victim", "own")
     pidfile = case["pidfile"]
+    datagram = bytes.fromhex(SHM_GARBAGE[case.get("datagram", "unknown-tag")])
 
     def point(task, at):
         # the crash point: executed inside the worker process
+        if task == "src" and at == "before":
+            try:
+                open(pidfile + ".started", "w").close()       # marker: the job has started (first task body entered)
+            except OSError:
+                pass
         if fault == "none" or task != ftask or at != when:
             return
         import json as _j
@@ -55,6 +65,15 @@ def make_job(case):
         import signal as _s
         import sys as _y
         import time as _t
+
+        def _mark(victim_host=""):
+            try:
+                with open(pidfile + ".fault", "w") as _f:     # marker: the fault was injected (and on which host's helper)
+                    _f.write(victim_host)
+            except OSError:
+                pass
+        if fault in ("raise", "exit", "kill9"):
+            _mark()
         if fault == "raise":
             raise RuntimeError("c05-injected-task-failure")
         if fault == "exit":
@@ -66,12 +85,41 @@ def make_job(case):
         me = [h for h, d in pids.items() if d["exec"] == _o.getppid()]
         others = [h for h in pids if h not in me]
         host = me[0] if (victim == "own" or not others) else others[0]
+        _mark(host)
         if fault == "kill-data":
             _o.kill(pids[host]["data"], _s.SIGKILL)
         elif fault == "kill-shm":
             _o.kill(pids[host]["shm"], _s.SIGKILL)
         elif fault == "term-shm":
             _o.kill(pids[host]["shm"], _s.SIGTERM)
+        elif fault == "kill-shm-midshutdown":
+            # the shm server dies between reading the executor's ShutdownCommand and answering it: freeze it, make the run
+            # fail (this task raises -> the controller shuts the executors down -> Executor.terminate sends the shutdown
+            # command, which queues up in the frozen server's socket), kill it as soon as the datagram is queued
+            _pid, _port = pids[host]["shm"], int(pids[host]["shm_port"])
+            _o.kill(_pid, _s.SIGSTOP)
+            if _o.fork() == 0:
+                try:
+                    _t0 = _t.time()
+                    while _t.time() - _t0 < 20.0:
+                        _q = 0
+                        for _l in open("/proc/net/udp").read().splitlines()[1:]:
+                            _f = _l.split()
+                            if int(_f[1].split(":")[1], 16) == _port:
+                                _q += int(_f[4].split(":")[1], 16)
+                        if _q:
+                            break
+                        _t.sleep(0.05)
+                    _t.sleep(0.2)
+                    _o.kill(_pid, _s.SIGKILL)
+                finally:
+                    _o._exit(0)
+            raise RuntimeError("c05-injected-task-failure")
+        elif fault == "garbage-shm":
+            import socket as _k
+            _q = _k.socket(_k.AF_INET, _k.SOCK_DGRAM)
+            _q.sendto(datagram, ("127.0.0.1", int(pids[host]["shm_port"])))
+            _q.close()
         elif fault == "kill-shm-midreq":
             # the shm server dies between reading a request and answering it: freeze it, let this worker's
             # next request queue up in its socket, then kill it
@@ -128,7 +176,13 @@ def _launch_executor(job, controller_address, workers, port_base, host, pidq):
     logging.disable(logging.CRITICAL)
     from cascade.executor.executor import Executor
     ex = Executor(job, controller_address, workers, host, port_base, None)
-    pidq.put((host, {"exec": os.getpid(), "shm": ex.shm_process.pid, "data": ex.data_server.pid}))
+    # the shm port is the one the executor has published for its workers (cascade.shm.api.publish_client_port)
+    try:
+        shm_port = int(os.environ["CASCADE_SHM_PORT"])
+    except (KeyError, ValueError):
+        shm_port = port_base + 2
+    pidq.put((host, {"exec": os.getpid(), "shm": ex.shm_process.pid, "data": ex.data_server.pid, "shm_port": shm_port,
+                     "daddress": str(getattr(ex, "daddress", ""))}))
     ex.register()
     ex.recv_loop()
 
@@ -176,6 +230,23 @@ def runner_main(case):
         for _ in hosts:
             h, d = pidq.get(timeout=20)
             pids[h] = d
+        # START-UP gate: every host's data server must be listening before the job starts. (Under heavy machine load a
+        # forked data server can deadlock inside zmq `bind` -- fork with threads --, which is not a C05 matter: such a
+        # run is reported as `infra` here, so that a hang observed AFTER this point is never excused as a start-up flake.)
+        for h, d in pids.items():
+            addr = d.get("daddress", "")
+            if addr.startswith("tcp://"):
+                hp = addr[len("tcp://"):].rsplit(":", 1)
+                tend = time.time() + 15.0
+                ok = False
+                while time.time() < tend and not ok:
+                    try:
+                        socket.create_connection((hp[0], int(hp[1])), timeout=1.0).close()
+                        ok = True
+                    except OSError:
+                        time.sleep(0.1)
+                if not ok:
+                    raise RuntimeError(f"start-up: data server of {h} is not listening on {addr}")
         tmp = case["pidfile"] + ".tmp"
         with open(tmp, "w") as f:
             json.dump(pids, f)
@@ -362,6 +433,13 @@ def run_case(case, deadline_s=30.0, settle_s=6.0, module="ekw.c05_cluster"):
             obs["ended"] = "infra"
             obs["error"] = f"runner exited rc={proc.poll()} without a result"
         obs["wall_run"] = round(time.time() - t0, 2)
+        obs["job_started"] = os.path.exists(case["pidfile"] + ".started")
+        obs["fault_fired"] = os.path.exists(case["pidfile"] + ".fault")
+        try:
+            obs["victim_host"] = open(case["pidfile"] + ".fault").read().strip() if obs["fault_fired"] else ""
+        except OSError:
+            obs["victim_host"] = ""
+        obs["uid"] = uid
         if obs["ended"] in ("ok", "error"):
             # the executors get a bounded time to finish their teardown
             tend = time.time() + settle_s
@@ -370,8 +448,9 @@ def run_case(case, deadline_s=30.0, settle_s=6.0, module="ekw.c05_cluster"):
                 if not left:
                     break
                 time.sleep(0.1)
-            # multiprocessing resource trackers leave once their owners are gone
-            tend2 = time.time() + 2.0
+            # multiprocessing resource trackers leave once their owners are gone (under heavy machine load that alone can
+            # take seconds; the wait ends as soon as they are gone)
+            tend2 = time.time() + 12.0
             while time.time() < tend2 and _session_pids(sid):
                 time.sleep(0.1)
             obs["leftover_procs"] = [c for _, c in _session_pids(sid)]
